@@ -49,6 +49,9 @@ type Project struct {
 	// types behind those are registered on the types that name them (a client that resolves
 	// references where it finds them). Default: the root registers every type.
 	Nest bool `json:"nest,omitempty"`
+	// Refused: registrations that the library has to refuse (a type whose text is empty, only a comment, or
+	// does not load), attempted on the root before everything else. A refused registration counts as not made.
+	Refused []Named `json:"refused,omitempty"`
 }
 
 // names reports whether text mentions the type name (followed by a character that cannot continue it).
@@ -89,6 +92,9 @@ func (p Project) String() string {
 	}
 	for _, t := range p.Rules {
 		fmt.Fprintf(&b, "\nrule %s := %s", t.Name, t.Text)
+	}
+	for _, t := range p.Refused {
+		fmt.Fprintf(&b, "\n(refused registration attempted first) %s := %q", t.Name, t.Text)
 	}
 	return b.String()
 }
@@ -250,6 +256,14 @@ func BuildSharing(p Project, from *Built) *Built {
 		b.trap("AddRule", func() {
 			if err := b.S.AddRule(r.Name, e); err != nil {
 				b.RuleErr[r.Name] = Describe(err)
+			}
+		})
+	}
+	for _, r := range p.Refused {
+		r := r
+		b.trap("AddType(refused)", func() {
+			if err := b.S.AddType(r.Name, jschema.New(r.FileName(), r.Text)); err == nil {
+				b.AddErr[r.Name] = &ErrInfo{GoType: "harness", Code: -2, Message: "the registration of a type with the text " + fmt.Sprintf("%q", r.Text) + " was expected to be refused and was accepted"}
 			}
 		})
 	}
